@@ -60,9 +60,13 @@ PROPS = {
         level_text="Theorems C05_iff (ContentsMatch is true exactly when the workspace entry, links followed, equals the "
                    "tree the recorded checksum stands for and that tree is in the cache), C05_file_iff, C05_skip, "
                    "C05_after_commit, C05_short_circuit_agrees, C05_same_contents (whole-buffer comparison = byte "
-                   "equality for every buffer size), over the model of status.go / same.go. Tied to the code by `dud "
-                   "status --debug` after every kind of single edit on committed trees (model vs JSON, and an "
-                   "independent truth computed in Coq from the observed workspace and cache).",
+                   "equality for every buffer size), C05_text_uptodate_iff / C05_text_dir_iff / C05_text_order_independent "
+                   "(the human text, modelled in Model/Render.v, reads up to date exactly when the flags do, whatever "
+                   "the map order) and C05_text_empty_directory_refuted (finding D17b), over the model of status.go / "
+                   "same.go / artifact.Status.String(). Tied to the code by `dud status --debug` after every kind of "
+                   "single edit on committed trees (model vs JSON, an independent truth computed in Coq from the "
+                   "observed workspace and cache, the human text compared byte for byte with the rendering model), "
+                   "and on pipelines whose stages share plain inputs committed at different times.",
         level_note="Hypotheses: collision-free hash on the strings involved, digests >= 3 chars, the manifest of a "
                    "non-recursive artifact lists no directory (found necessary by machine-checked counterexamples). The "
                    "8 MiB buffer boundary is covered by the theorem for every buffer size, not by big files. Human text "
